@@ -11,7 +11,8 @@ A model description is a pure value:
 
 The input tensor is called "in0".  `kw` are the constructor keyword arguments
 of `tf.keras.layers.<cls>` (lists stand for tuples); `Bidirectional` carries the
-wrapped layer as {"layer": {"name","cls","kw"}, "merge_mode": ...}.  Merge
+wrapped layer as {"layer": {"name","cls","kw"}, "merge_mode": ...} and
+optionally an explicit {"backward_layer": {"name","cls","kw"}} (go_backwards=True).  Merge
 layers (`Add`, `Concatenate`) have several names in "in".
 
 Shapes are constructed, never rejected: every generator step knows the shape of
@@ -34,8 +35,16 @@ import numpy as np
 MAX_LAYERS = 8
 INPUT_NAME = "in0"
 
-ACTS = [None, "relu", "tanh", "sigmoid", "softmax", "linear"]
-RNN_ACTS = ["tanh", "relu", "sigmoid", "linear"]
+# every activation name tf_keras' activations.get() resolves (silu is left out:
+# it serialises as "swish").  Only exactly relu / tanh / sigmoid are rewritten
+# by model_quantize; they keep about a third of the weight.
+OTHER_ACTS = ["elu", "exponential", "gelu", "hard_sigmoid", "mish", "selu",
+              "softplus", "softsign", "swish", "leaky_relu", "relu6",
+              "log_softmax"]
+ACTS = [None, "linear", "softmax", "relu", "relu", "relu", "tanh", "tanh",
+        "sigmoid", "sigmoid", "hard_sigmoid", "leaky_relu"] + OTHER_ACTS
+RNN_ACTS = ["tanh", "tanh", "relu", "sigmoid", "linear", "hard_sigmoid", "elu",
+            "softsign", "relu6", "leaky_relu", "swish"]
 
 _TUPLE_KEYS = ("kernel_size", "strides", "dilation_rate", "pool_size")
 
@@ -62,6 +71,8 @@ def make_layer(ld, extra=None):
     kw.update(extra)
   if ld["cls"] == "Bidirectional":
     inner = kw.pop("layer")
+    if kw.get("backward_layer") is not None:
+      kw["backward_layer"] = make_layer(kw["backward_layer"])
     return L.Bidirectional(make_layer(inner), name=ld["name"], **kw)
   return getattr(L, ld["cls"])(name=ld["name"], **kw)
 
@@ -130,6 +141,8 @@ def classes_in(desc):
     out.append(ld["cls"])
     if ld["cls"] == "Bidirectional":
       out.append("Bidirectional:" + ld["kw"]["layer"]["cls"])
+      if ld["kw"].get("backward_layer"):
+        out.append("Bidirectional:backward:" + ld["kw"]["backward_layer"]["cls"])
   return out
 
 
@@ -439,9 +452,18 @@ class _Gen(object):
                "cls": inner_cls, "kw": self.rnn_kw(inner_cls, u, rs)}
       inner["kw"].pop("go_backwards", None)
       oc = 2 * u if mm == "concat" else u
-      return self.add("Bidirectional", "bidi",
-                      {"layer": inner, "merge_mode": mm},
-                      [t, oc] if rs else [oc])
+      bkw = {"layer": inner, "merge_mode": mm}
+      if self.i(0, 2) == 0:
+        # explicit backward layer: own name, go_backwards=True, same units and
+        # return_sequences (Keras' constraints); own bias / activations, and
+        # sometimes another recurrent class
+        bcls = inner_cls if self.i(0, 2) else self.pick(
+            ["LSTM", "SimpleRNN", "GRU"])
+        bw = {"name": "%s_bw_%d" % (bcls.lower(), len(self.layers) + 1),
+              "cls": bcls, "kw": self.rnn_kw(bcls, u, rs)}
+        bw["kw"]["go_backwards"] = True
+        bkw["backward_layer"] = bw
+      return self.add("Bidirectional", "bidi", bkw, [t, oc] if rs else [oc])
     kw = self.rnn_kw(kind, u, rs)
     return self.add(kind, kind.lower(), kw, [t, u] if rs else [u])
 
